@@ -304,15 +304,15 @@ def opPush (cx : Ctx) (cur : Option Cell) (c : Cmd) : M (Option Cell) :=
       pure (some ⟨le32 (x.data.length + vs) ++ [0, (b5 &&& 0xf8) ||| fARRAY] ++ x.data.drop 6 ++ le32 vs ++ c.data.drop off,
                   [], PUSH, cx.fromAof⟩)
 
-/-- The element loop of POP (also `GetArrayValue`): `rem` = `data[i:]`.
-    Zero-length elements are skipped; the loop stops when `i+4 < len` fails or an element runs past the cell. -/
+/-- The element loop of POP (also the undo loops and `GetArrayValue`): `rem` = `data[i:]`, `for i+4 <= len`.
+    Every element counts, the zero-length one included (repaired, e6b8126); the loop stops at an element that runs
+    past the cell. -/
 def parseElems : Nat → Bytes → List Bytes
   | 0, _ => []
   | fuel + 1, rem =>
-    if rem.length ≤ 4 then [] else
+    if rem.length < 4 then [] else
     let vl := readLE (rem.take 4)
-    if vl = 0 then parseElems fuel (rem.drop 4)
-    else if 4 + vl > rem.length then []
+    if 4 + vl > rem.length then []
     else (rem.drop 4).take vl :: parseElems fuel (rem.drop (4 + vl))
 
 def encElems (xs : List Bytes) : Bytes := xs.flatMap (fun x => le32 x.length ++ x)
